@@ -17,12 +17,13 @@ EXPLANATION = (
     'monotonicity (two symbolic inputs a < b => f(a) < f(b)) and a Lipschitz bound across all branch combinations '
     '(no jump at the Bark break-points). log/exp/log2/2** are uninterpreted strictly increasing inverse pairs whose '
     'axioms are instantiated on the occurring terms. OctaveScaling.__init__ must raise ValueError iff low_hz <= 0.')
-BOUNDS = {'quick': 'all real f in [0, 1e5] Hz (octave: f >= low_hz > 0), all scale values in the image, linear slope > 0, any low_hz',
+BOUNDS = {'quick': 'all real f in [0, 1e5] Hz (octave: f >= low_hz > 0), all scale values in the image, linear slope > 0, any low_hz; integer-typed arguments (Python int, np.int32, np.int64) 0..100000 Hz and integer scale values 0..40 whose frequency lies in the domain; public parameters reassigned after construction (linear, octave)',
           'thorough': 'same (the domain is already unbounded inside [0, 1e5]); additionally negative linear offsets and octave low_hz down to 1e-9'}
 OUTSIDE = ['floating-point error of the compositions ("exactly invertible" is decided over the reals)',
            'numerical agreement of log/exp with the published constants beyond the anchor 1000 Hz ~ 1000 mel (one concrete evaluation)',
            'LinearScaling with slope <= 0 (decreasing by construction; documented meaning of slope_hz is an increase)']
-ASSUMPTIONS = ['float literals in the source are read as their decimal values (26.81 = 2681/100), arithmetic over the reals',
+ASSUMPTIONS = ['an integer base raised to a fixed-width NumPy integer is computed in that width and wraps (2 ** np.int32(31) == -2**31, 2 ** np.int32(32) == 0); 2 ** k is exact for integer 0 <= k <= 45',
+               'float literals in the source are read as their decimal values (26.81 = 2681/100), arithmetic over the reals',
                'np.log/np.exp and np.log2/2** are strictly increasing mutually inverse bijections (0,inf) <-> R (axioms instantiated on occurring terms)',
                'continuity of each closed-form piece (rational functions without poles in the domain, affine maps of log/exp)']
 CONFIG_TIME_LIMIT = {'quick': 300, 'thorough': 900}
